@@ -125,7 +125,7 @@ static void watchdog()
     for (;;) {
         std::this_thread::sleep_for( std::chrono::milliseconds( 200 ));
         long s = g_case_started.load();
-        if ( s != 0 && now_ms() - s > 3000 ) {
+        if ( s != 0 && now_ms() - s > 30000 ) {
             std::printf( "case %s\nendcase hang\nmonitor hang\n", g_case_id.c_str());
             std::fflush( stdout );
             _exit( 3 );
